@@ -107,4 +107,24 @@ def run(ck, n_valid=None, max_per_kind=None):
     max_per_kind = max_per_kind if max_per_kind is not None else (6 if ck.tier == "quick" else 40)
     inputs = build_inputs(ck, n_valid, max_per_kind)
     outs = ck.rt_batch(["run " + hexs(t) for _, t in inputs], binary="inproc", harness="inproc")
+    # the same inputs in the regime of a stable compiler (Span::join fails): the front end must answer with the same status - in
+    # particular it must not panic there (`a.join(b).unwrap()` is fine in process and a "proc macro panicked" under rustc)
+    import os
+    envnj = dict(os.environ)
+    envnj["VERIF_NOJOIN"] = "1"
+    outs_nj = ck.rt_batch(["run " + hexs(t) for _, t in inputs], binary="inproc", harness="inproc", env=envnj)
+    differ = 0
+    for (kind, text), a, b in zip(inputs, outs, outs_nj):
+        sa, sb = a.split("\t")[0], b.split("\t")[0]
+        if sb == "panic":
+            f = b.split("\t")
+            differ += 1
+            ck.report("panic-when-join-fails:%s" % (f[1] if len(f) > 1 else "?"), "the macro panics ('proc macro panicked') when Span::join fails, as it does inside a stable compiler",
+                      dict(invocation="assert_struct!(%s)" % text, stage=f[1] if len(f) > 1 else "?", panic_message=unhexs(f[2]) if len(f) > 2 else "", with_join=sa, input_kind=kind))
+        elif sa != sb:
+            differ += 1
+            ck.report("status-depends-on-join:" + hexs(text)[:30], "whether the front end accepts an input depends on whether Span::join succeeds",
+                      dict(invocation="assert_struct!(%s)" % text, with_join=a[:200], join_failing=b[:200]), no_input=True)
+    ck.corr_record("T1 with Span::join failing (the same inputs through the real front end in the regime of a stable compiler: same status, no panic)",
+                   len(inputs), len(inputs), differ, {}, samples=[dict(invocation=inputs[0][1][:120])], rule="the T1 inputs again; vendored proc-macro2 with VERIF_NOJOIN")
     return inputs, outs
